@@ -2,5 +2,5 @@
 EXTENDS SelfCert, Json
 DumpCase ==
     PrintT(<<"CASE", ToJson([patch |-> cs.base.delta.patch, ao |-> cs.base.sd.ao, ty |-> cs.base.sd.ty, h |-> cs.base.h,
-                             algs |-> cs.algs, mod |-> cs.mod, expected |-> Expected(cs)])>>)
+                             algs |-> cs.algs, mod |-> cs.mod, ns |-> cs.ns, expected |-> Expected(cs)])>>)
 =============================================================================
